@@ -115,7 +115,11 @@ def matrix_edmd(P, xi, yi):
     U, s, Vh = np.linalg.svd(Px.T, full_matrices=False)        # Psi_x^T = U S Vh
     ratios = s / s[0]
     keep = ratios > 1e-3
-    near = bool(np.any(np.abs(np.log10(np.maximum(ratios, 1e-300)) + 3) < 1.0)) and not bool(np.all(ratios > 1e-2))
+    # the cut is decided on singular values that agree with the code's to ~1e-15 * s[0]: only a narrow band around 1e-3 is undecidable
+    near = bool(np.any(np.abs(np.log10(np.maximum(ratios, 1e-300)) + 3) < 0.1))
+    # kept directions with small singular values make the eigenvalues of the EDMD matrix ill-conditioned: then only the NUMBER
+    # of returned eigenvalues (the cut itself) is compared, not their values
+    matrix_edmd.illcond = bool(np.any(np.abs(np.log10(np.maximum(ratios, 1e-300)) + 3) < 1.0)) and not bool(np.all(ratios > 1e-2))
     pinv = Vh[keep].T @ np.diag(1 / s[keep]) @ U[:, keep].T
     return pinv @ Py.T, int(np.sum(keep)), near, ratios
 
@@ -153,6 +157,11 @@ def side_case(seed):
         if rng.random() < 0.5:
             pairs.append((np.arange(0, m - 2), np.arange(2, m)))
         npairs = len(pairs)
+    if variant == 'hosvd' and m >= 3 and rng.random() < 0.25:
+        # nearly coinciding snapshots: singular values of Psi_x spread over the decades around the fixed relative cut 1e-3
+        eps = 10 ** rng.uniform(-5, -1.5)
+        for j in range(1, m, 2):
+            x[:, j] = x[:, j - 1] + eps * np.array([rng.uniform(-1, 1) for _ in range(d)])
     ityped = False
     if variant == 'hosvd' and basis[0][0].__class__ is not tdt.Identity and rng.random() < 0.15:
         # integer-valued snapshots handed over as an int64 array (lattice points, counts)
@@ -192,6 +201,13 @@ def side_case(seed):
             for o_ in out:
                 if isinstance(o_, TT) and not consistent(o_):
                     return 'amuset_hosvd(st_tf=True) returned an inconsistent tensor train (row_dims %s, core shapes %s)' % (o_.row_dims, [c.shape for c in o_.cores]), desc
+            # the flags only add outputs: eigenvalues and eigentensors are those of the plain call
+            ev0, et0 = ted.amuset_hosvd(x, pairs[0][0], pairs[0][1], basis, threshold=1e-12)
+            if np.shape(out[0]) != np.shape(ev0) or np.max(np.abs(np.asarray(out[0]) - np.asarray(ev0)), initial=0) > 1e-9:
+                return 'amuset_hosvd(st_tf=True): eigenvalues differ from the call without the flag', desc
+            Ta, Tb = dense(out[1].cores), dense(et0.cores)
+            if Ta.shape != Tb.shape or np.max(np.abs(Ta - Tb), initial=0) > 1e-7 * (1 + np.max(np.abs(Tb), initial=0)):
+                return 'amuset_hosvd(st_tf=True): eigentensors differ from the call without the flag', desc
         if len(ev_l) != npairs or len(et_l) != npairs:
             return 'list call returned %d results for %d pairs' % (len(ev_l), npairs), desc
         if len(set(map(id, et_l))) != npairs:
@@ -212,6 +228,9 @@ def side_case(seed):
             ev = np.asarray(ev_l[i])
             if len(ev) != k:
                 return 'pair %d: %d eigenvalues returned, matrix EDMD keeps rank %d' % (i, len(ev), k), desc
+            if matrix_edmd.illcond:
+                desc['values_skipped'] = 'ill-conditioned EDMD matrix (kept singular values below 1e-2 s_0): only the rank of the cut compared'
+                continue
             ref = np.linalg.eigvals(K)
             ref = ref[np.argsort(-np.abs(ref))]
             if ityped and any(abs(a_ - b_) < 1e-3 for ia, a_ in enumerate(ref) for b_ in ref[ia + 1:] if abs(a_) > 1e-3):
